@@ -89,6 +89,9 @@ def _pow10_floor(x):
         e += 1
     return e
 
+def _flt(x):
+    return float(x) if x < 10 ** 300 else float('inf')
+
 def _check_file(path):
     bad = []
     n = 0
@@ -102,7 +105,10 @@ def _check_file(path):
         parts = line.rstrip('\n').split(' ', 3)
         if len(parts) < 4 or parts[0] != 'R':
             continue
-        bits, prec, text = int(parts[1], 16), int(parts[2]), parts[3]
+        try:
+            bits, prec, text = int(parts[1], 16), int(parts[2]), parts[3]
+        except ValueError:
+            continue        # a record cut short by a crash of the harness (the crash itself is reported by the driver)
         v = struct.unpack('<d', struct.pack('<Q', bits))[0]
         n += 1
         if v == 0 or math.isnan(v) or math.isinf(v):
@@ -112,7 +118,9 @@ def _check_file(path):
             continue
         try:
             t = Fraction(text)
-        except (ValueError, ZeroDivisionError):
+            if abs(t) > Fraction(10) ** 400 or (t != 0 and abs(t) < Fraction(10) ** -400):
+                raise ValueError('magnitude')
+        except (ValueError, ZeroDivisionError, OverflowError):
             bad.append(('c16/builtin-formatter/unparsable-text', 'SCPI_dtostre(%r, prec %d) = [%s]' % (v, prec, text)))
             continue
         # the promised number of significant digits is also an upper bound: more digits than requested is garbage
@@ -129,10 +137,10 @@ def _check_file(path):
         # the value is a binary double, not a decimal literal: one binary ulp of slack
         if err > 1 + Fraction(math.ulp(v)) / unit:
             kind = 'deviation-above-4-units' if err > 4 else 'deviation-1-to-4-units'
-            bad.append(('c16/builtin-formatter/' + kind, 'SCPI_dtostre(%r, prec %d) = [%s]: off by %.3f units of the last requested digit' % (v, prec, text, float(err))))
+            bad.append(('c16/builtin-formatter/' + kind, 'SCPI_dtostre(%r, prec %d) = [%s]: off by %.3f units of the last requested digit' % (v, prec, text, _flt(err))))
         elif len(samples) < 2 and prec == 15:
-            samples.append('SCPI_dtostre(%r, prec 15) = %s (%.3f units off)' % (v, text, float(err)))
-    return n, bad, float(worst), samples
+            samples.append('SCPI_dtostre(%r, prec 15) = %s (%.3f units off)' % (v, text, _flt(err)))
+    return n, bad, _flt(worst), samples
 
 def post(tier, cfg, bdir, nshards):
     if 'dtostre' not in cfg:
@@ -158,5 +166,5 @@ def post(tier, cfg, bdir, nshards):
             os.remove(f)
         except OSError:
             pass
-    st = {'records_checked_exactly': total, 'nontrivial': total, 'max_worst_deviation_milliunits': int(worst * 1000)}
+    st = {'records_checked_exactly': total, 'nontrivial': total, 'max_worst_deviation_milliunits': int(min(worst, 1e15) * 1000)}
     return st, viols, samples[:3]
